@@ -1,0 +1,25 @@
+//go:build verif
+
+package elf
+
+import (
+	"debug/elf"
+	"fmt"
+	"io"
+)
+
+// VerifNewParserFromReaderAt is NewParser reading the ELF image from r instead
+// of a named file. It exists only in builds with the verif tag and is used by
+// the verification harness to inject read faults below the ELF loader.
+func VerifNewParserFromReaderAt(r io.ReaderAt) (*Parser, error) {
+	f, err := elf.NewFile(r)
+	if err != nil {
+		return nil, fmt.Errorf("cannot open file %q: %w", "<reader>", err)
+	}
+
+	if f.Type&elf.ET_EXEC == 0 {
+		return nil, fmt.Errorf("file %q is not an executable ELF file", "<reader>")
+	}
+
+	return &Parser{f: f}, nil
+}
